@@ -1681,15 +1681,13 @@ Section O8.
     intros a b tasks E. destruct (eqv_types a b E) as [G [TI TO]]. unfold exec_all.
     assert (H1 : forallb (fun t => has_node b (fst t)) tasks = forallb (fun t => has_node a (fst t)) tasks).
     { apply forallb_ext. intro t. apply eqv_has_node; exact E. }
-    assert (H2 : forallb (pre_ok asrt b) tasks = forallb (pre_ok asrt a) tasks).
-    { apply forallb_ext. intro t. unfold pre_ok. rewrite G. reflexivity. }
-    assert (H3 : map (node_out asrt emit b) tasks = map (node_out asrt emit a) tasks).
-    { apply map_ext. intro t. unfold node_out, emit_of. rewrite G, TO. reflexivity. }
-    rewrite H1, H2, H3.
-    assert (H4 : forall l, forallb (fun p : key * dyn * option dyn => post_ok asrt b (fst (fst p)) (snd p)) l =
-                           forallb (fun p : key * dyn * option dyn => post_ok asrt a (fst (fst p)) (snd p)) l).
-    { intro l. apply forallb_ext. intro p. unfold post_ok. rewrite G. reflexivity. }
-    rewrite H4. reflexivity.
+    assert (H2 : forall l, pre_all asrt b l = pre_all asrt a l).
+    { induction l as [|t r IH]; simpl; [reflexivity|]. unfold pre_res. rewrite G, IH. reflexivity. }
+    rewrite H1, H2. destruct (pre_all asrt a tasks) as [o|tasks1]; [reflexivity|].
+    assert (H3 : map (fun t => post_res asrt b (fst t) (node_out asrt emit b t)) tasks1 =
+                 map (fun t => post_res asrt a (fst t) (node_out asrt emit a t)) tasks1).
+    { apply map_ext. intro t. unfold post_res, node_out, emit_of. rewrite !G, TO. reflexivity. }
+    rewrite H3. reflexivity.
   Qed.
 
   Lemma eqv_loop : forall a b steps tasks, eqv a b -> loop u asrt emit b steps tasks = loop u asrt emit a steps tasks.
